@@ -75,6 +75,7 @@ def import_repo():
   import atsim.potentials  # noqa
   import atsim.potentials.config  # noqa
   import atsim.potentials.tools.potable  # noqa
+  import atsim.potentials.config._pymath  # noqa  (imported lazily by the registry: must be loaded before install())
   f = os.path.realpath(atsim.potentials.__file__)
   if not f.startswith(repo.rstrip("/") + "/"):
     raise core.HarnessError("atsim.potentials imported from %s, expected under %s" % (f, repo))
